@@ -8,7 +8,8 @@ plain/bz2/xz/lz4, the gzip header MTIME, the tar member mtime). s4's
 stay in file order, and windows / cross-file merges use the inferred dates.
 Excluded by construction (documented limitation, Issue #245): a 29 February
 message followed by a message of a later year. Gaps between consecutive messages
-are kept under 300 days so the December-to-January wrap is visible.
+are kept under 363 days so the December-to-January wrap is visible (by two days
+or more in the same-year reading).
 """
 import os
 import re
@@ -52,12 +53,15 @@ def make_case(ctx, rng, cid):
         y = gen.civil(cur, tz_min)[0]
         ylo, _ = year_bounds(y, tz_min)
         into_year = (cur - ylo) // gen.NS
-        if need_wraps > 0 and into_year < 280 * 86400 and rng.random() < max(0.25, need_wraps / max(1, (n - 1 - i))):
+        if need_wraps > 0 and into_year < 340 * 86400 and rng.random() < max(0.25, need_wraps / max(1, (n - 1 - i))):
             # previous message lies in the previous year, less than 300 days before `cur`, and (since the gap is
             # under a year) later in the calendar than `cur`: the December-to-January wrap is visible
-            back = rng.randint(1, max(2, 295 * 86400 - into_year))
+            # total gap under a year, and the wrap visible by at least two days in the same-year reading
+            # (the program's rule: a backwards jump of more than 25 hours means a new year)
+            back = rng.randint(1, max(2, 362 * 86400 - into_year))
+            if rng.random() < 0.3:
+                back = max(1, 362 * 86400 - into_year - rng.randint(0, 5 * 86400))     # gaps close to a year
             prev = ylo - back * gen.NS
-            # keep the wrap visible by more than 25 h in the same-year reading
             if (prev + 365 * 86400 * gen.NS) - cur < 2 * 86400 * gen.NS:
                 prev = ylo - gen.NS
             need_wraps -= 1
@@ -124,7 +128,7 @@ def run(ctx):
     s4 = core.build_s4()
     rng = ctx.rng
     ncases = ctx.pick(500, 8000)
-    ctx.rule = ("year-less RFC 3164 logs (3 spellings) spanning 0..4 year boundaries, gaps < 300 days, mtimes anywhere in the last message's year "
+    ctx.rule = ("year-less RFC 3164 logs (3 spellings) spanning 0..4 year boundaries, gaps < 363 days, mtimes anywhere in the last message's year "
                 "incl. within 2 h of New Year in 6 zones (-12:00..+14:00), plain / gz header MTIME / tar member mtime / bz2 / xz / lz4, block sizes, "
                 "windows on inferred dates, merge with a year-bearing log; distinct = (wraps, container, zone, style, mtime position class, variant)")
     jobs, metas = [], []
